@@ -50,3 +50,122 @@ Lemma upsample_fractional_size_refuted :
   nZ (K:=QcF) ceilQc g' = [5; 4]%Z /\
   up_size 1 None [3; 2]%Z = [6; 4]%Z.
 Proof. intros. repeat split; vm_compute; reflexivity. Qed.
+
+(* ---------- floor / ceiling facts used by the shape lemmas, for the executable instance ---------- *)
+Local Open Scope Q_scope.
+Lemma this_div (a b : Qc) : this (fdiv (K:=QcF) a b) == this a / this b.
+Proof.
+  change (this (Q2Qc (this a * this (Qcinv b))) == this a / this b).
+  change (Qred (this a * Qred (/ this b)) == this a / this b). rewrite !Qred_correct. reflexivity.
+Qed.
+
+Lemma inject_div_make (n k : Z) : (0 < k)%Z -> inject_Z n / inject_Z k == n # Z.to_pos k.
+Proof.
+  intro Hk. destruct k as [|p|p]; try lia. unfold Qdiv, Qinv, inject_Z, Qmult, Qeq. cbn. lia.
+Qed.
+
+Lemma floorQc_div (n k : Z) : (0 < k)%Z -> floorQc (fdiv (K:=QcF) (of_Z n) (of_Z k)) = (n / k)%Z.
+Proof.
+  intro Hk. unfold floorQc. rewrite this_div, !this_of_Z, (inject_div_make n k Hk).
+  destruct k as [|p|p]; try lia. reflexivity.
+Qed.
+
+(* ceil (ceil f / p) = ceil (f / p): halving the ROUNDED size (data path) or the FLOAT size (grid path) gives the same shape *)
+Lemma ceil_nested_div (f : Q) (p : Z) : (0 < p)%Z -> Qceiling (inject_Z (Qceiling f) / inject_Z p) = Qceiling (f / inject_Z p).
+Proof.
+  intro Hp. set (P := inject_Z p). assert (HP : 0 < P) by (unfold P; change 0 with (inject_Z 0); rewrite <- Zlt_Qlt; exact Hp).
+  set (qq := Qceiling (f / P)).
+  pose proof (Qle_ceiling (f / P)) as A. pose proof (Qceiling_lt (f / P)) as B. fold qq in A, B.
+  apply Qceiling_unique.
+  - (* qq - 1 < f / P <= ceil f / P *)
+    apply Qlt_le_trans with (f / P).
+    + unfold Z.sub in B. rewrite inject_Z_plus in B. change (inject_Z (- (1))) with (- (1)) in B. lra.
+    + unfold Qdiv. apply Qmult_le_compat_r; [apply Qle_ceiling | apply Qlt_le_weak, Qinv_lt_0_compat, HP].
+  - (* ceil f <= p * qq since f <= p * qq *)
+    assert (F : f <= inject_Z (qq * p)).
+    { rewrite inject_Z_mult. fold P.
+      assert (E : f == f / P * P) by (field; intro H; rewrite H in HP; apply (Qlt_irrefl 0 HP)).
+      rewrite E. apply Qmult_le_compat_r; [exact A | apply Qlt_le_weak, HP]. }
+    assert (Cz : (Qceiling f <= qq * p)%Z) by (rewrite <- (Qceiling_Z (qq * p)); apply Qceiling_resp_le; exact F).
+    apply Qle_shift_div_r; [exact HP|]. unfold P. rewrite <- inject_Z_mult, <- Zle_Qle. exact Cz.
+Qed.
+
+Lemma ceil_int_div (c p : Z) : (0 < p)%Z -> Qceiling (inject_Z c / inject_Z p) = ((c + p - 1) / p)%Z.
+Proof.
+  intro Hp. unfold Qceiling.
+  assert (E : - (inject_Z c / inject_Z p) == inject_Z (- c) / inject_Z p) by (rewrite inject_Z_opp; field; intro H; change 0 with (inject_Z 0) in H; rewrite inject_Z_injective in H; lia).
+  rewrite E, (inject_div_make (- c) p Hp). destruct p as [|pp|pp]; try lia.
+  change (Qfloor (- c # Z.to_pos (Z.pos pp))) with ((- c) / Z.pos pp)%Z.
+  pose proof (Z.div_mod (- c) (Z.pos pp) ltac:(lia)). pose proof (Z.mod_pos_bound (- c) (Z.pos pp) ltac:(lia)).
+  pose proof (Z.div_mod (c + Z.pos pp - 1) (Z.pos pp) ltac:(lia)). pose proof (Z.mod_pos_bound (c + Z.pos pp - 1) (Z.pos pp) ltac:(lia)).
+  nia.
+Qed.
+
+(* the shape the data path computes from the rounded size is the rounded halved float size of the grid path *)
+Lemma down_shape_Qc (f : Qc) (L : nat) :
+  ceilQc (fdiv (K:=QcF) f (pow2 (K:=QcF) L)) = ((ceilQc f + 2 ^ Z.of_nat L - 1) / 2 ^ Z.of_nat L)%Z.
+Proof.
+  assert (Hp : (0 < 2 ^ Z.of_nat L)%Z) by (apply Z.pow_pos_nonneg; lia).
+  unfold ceilQc, pow2. rewrite this_div, this_of_Z.
+  rewrite <- (ceil_nested_div (this f) (2 ^ Z.of_nat L) Hp). apply ceil_int_div. exact Hp.
+Qed.
+
+(* ---------- shape_agrees for downsample (all axes, no minimum size), any number of axes, executable instance ---------- *)
+From DV Require Import Proofs.C03Ops.
+Lemma leQc_refl (x : Qc) : leQc x x = true.
+Proof. unfold leQc. apply Qle_bool_iff. apply Qle_refl. Qed.
+Lemma leQc_antisym (x y : Qc) : leQc x y = true -> leQc y x = true -> x = y.
+Proof. unfold leQc. rewrite !Qle_bool_iff. intros A B. apply Qc_is_canon. apply Qle_antisym; assumption. Qed.
+
+Lemma nZ_d_resize (D : nat) (m : list Qc) (a : bool) (g : dgrid (K:=QcF)) :
+  nZ (K:=QcF) ceilQc (d_resize (K:=QcF) ceilQc leQc D m a g) = map ceilQc m.
+Proof.
+  unfold d_resize. destruct (veqK (K:=QcF) leQc m (fs g)) eqn:E; [|reflexivity].
+  apply (veqK_true_iff QcF leQc leQc_refl leQc_antisym) in E. subst m. reflexivity.
+Qed.
+
+Lemma mapi_from_all {A} (F : nat -> A -> A) (G : A -> A) (l : list A) : (forall i x, F i x = G x) ->
+  forall k, mapi_from F k l = map G l.
+Proof. intro H. induction l as [|x l IH]; intro k; cbn; [reflexivity | now rewrite H, IH]. Qed.
+Lemma mapi_z_all {B} (F : nat -> Z -> B) (G : Z -> B) (l : list Z) : (forall i x, F i x = G x) ->
+  forall k, mapi_z F k l = map G l.
+Proof. intro H. induction l as [|x l IH]; intro k; cbn; [reflexivity | now rewrite H, IH]. Qed.
+
+Lemma pow2_pos (L : nat) : (0 < this (pow2 (K:=QcF) L))%Q.
+Proof. unfold pow2. rewrite this_of_Z. change 0%Q with (inject_Z 0). rewrite <- Zlt_Qlt. apply Z.pow_pos_nonneg; lia. Qed.
+
+Lemma down_axis_Qc (L : nat) (f : Qc) : (0 <= this f)%Q ->
+  ceilQc (if leQc (zK (K:=QcF) 0) (fdiv (K:=QcF) f (pow2 (K:=QcF) L)) then fdiv (K:=QcF) f (pow2 (K:=QcF) L) else f)
+  = (if (0 * 2 ^ Z.of_nat L <=? ceilQc f)%Z then (ceilQc f + 2 ^ Z.of_nat L - 1) / 2 ^ Z.of_nat L else ceilQc f)%Z.
+Proof.
+  intro Hf.
+  assert (Hc : (0 <= ceilQc f)%Z).
+  { unfold ceilQc. rewrite <- (Qceiling_Z 0). apply Qceiling_resp_le. exact Hf. }
+  rewrite Z.mul_0_l. rewrite (proj2 (Z.leb_le 0 (ceilQc f)) Hc).
+  assert (Hle : leQc (zK (K:=QcF) 0) (fdiv (K:=QcF) f (pow2 (K:=QcF) L)) = true).
+  { unfold leQc. apply Qle_bool_iff. rewrite this_div. change (this (zK (K:=QcF) 0)) with 0%Q.
+    unfold Qdiv. apply Qmult_le_0_compat; [exact Hf | apply Qlt_le_weak, Qinv_lt_0_compat, pow2_pos]. }
+  rewrite Hle. apply down_shape_Qc.
+Qed.
+
+Lemma shape_agrees_downsample_Qc (D : nat) (L : nat) (a : option bool) (g : dgrid (K:=QcF)) :
+  Forall (fun f => (0 <= this f)%Q) (fs g) ->
+  nZ (K:=QcF) ceilQc (g_downsample (K:=QcF) ceilQc leQc D L None 0 a g) = down_size L None 0 (nZ (K:=QcF) ceilQc g).
+Proof.
+  intro Hpos. unfold g_downsample. rewrite nZ_d_resize. unfold down_size, nZ. cbn [in_dims in_dimsb].
+  generalize 0%nat at 2. generalize 0%nat. induction Hpos as [|f l Hf Hl IH]; intros k k'; cbn [mapi_from combine map mapi_z fst snd]; [reflexivity|].
+  f_equal; [apply down_axis_Qc; exact Hf | apply IH].
+Qed.
+
+(* upsample: the data path doubles the ROUNDED size, the grid path the FLOAT size: they agree when the float size is integral
+   (the fractional case is C04_upsample_fractional_size_refuted) *)
+Lemma shape_agrees_upsample_int_Qc (D : nat) (L : nat) (a : option bool) (g : dgrid (K:=QcF)) (sizes : list Z) :
+  fs g = map (of_Z (K:=QcF)) sizes ->
+  nZ (K:=QcF) ceilQc (g_upsample (K:=QcF) ceilQc leQc D L None a g) = up_size L None (nZ (K:=QcF) ceilQc g).
+Proof.
+  intro Hf. unfold g_upsample. rewrite nZ_d_resize. unfold up_size, nZ. rewrite Hf. clear Hf. cbn [in_dims in_dimsb].
+  generalize 0%nat at 2. generalize 0%nat. induction sizes as [|z l IH]; intros k k'; cbn [mapi_from map mapi_z]; [reflexivity|].
+  f_equal; [|apply IH].
+  unfold pow2. change (fmul (K:=QcF) (of_Z z) (of_Z (2 ^ Z.of_nat L))) with (fmul (K:=QcF) (of_Z z) (of_Z (2 ^ Z.of_nat L))).
+  rewrite <- (of_Z_mul QcF QcF_field z (2 ^ Z.of_nat L)). rewrite !ceilQc_int. reflexivity.
+Qed.
